@@ -1218,4 +1218,6 @@ func c10(r *Report, s *Sem) {
 		}
 	}
 	r.Check(R2, "func "+fnName(na.serverEst)+" / negotiable encryption = configured ∩ supported", p.instrPos(na.negCall), ok2, detail)
+	R3 := r.Rule("R3", "when negotiation runs, its result is from the offer: the confirmation (and the upgrade) sit on the ok edges of lookups of the peer's selection in sets built from the offered lists — an omitted or merely supported encryption is refused", 3)
+	checkNegotiationGate(r, s, R3)
 }
